@@ -8,6 +8,7 @@ import (
 	"encoding/json"
 	"fmt"
 	"os"
+	"regexp"
 	"sort"
 	"strings"
 	"time"
@@ -19,6 +20,7 @@ type Acc struct {
 	State string  `json:"state"`
 	Prop  *string `json:"prop"`
 	Ver   int     `json:"ver"`
+	Time  int64   `json:"time"`
 	CS    string  `json:"cs"`
 	Node  int     `json:"node"`
 }
@@ -60,10 +62,12 @@ type Event struct {
 	Second    *snapshot        `json:"second,omitempty"`
 	Reason    string           `json:"reason,omitempty"`
 	Quiet     bool             `json:"quiet,omitempty"`
+	Halted    bool             `json:"halted,omitempty"`
 	Snap      *snapshot        `json:"snap,omitempty"`
 	Faults    map[string]int64 `json:"faults,omitempty"`
 	RunErrors []string         `json:"run_errors,omitempty"`
 	What      string           `json:"what,omitempty"`
+	Stack     string           `json:"stack,omitempty"`
 }
 
 func readEvents(path string) (evs []Event, complete bool, err error) {
@@ -100,23 +104,30 @@ type Finding struct {
 
 // Stats is what one analysed run contributes to the evidence.
 type Stats struct {
-	Reason         string         `json:"reason"`
-	Requests       map[string]int `json:"requests"` // by type/outcome
-	Installs       int            `json:"installs"`
-	Wins           int            `json:"wins"`
-	MaxVersion     int            `json:"max_version"`
-	Sections       int            `json:"sections_committed"`
-	WritersCommit  int            `json:"writers_that_committed"`
-	AbortsReleased int            `json:"aborts_that_released"` // Abort processed by an acceptor holding that proposer's pre-commit
-	Rejected       int            `json:"precommits_rejected"`
-	Ignored        int            `json:"stale_ignored"`
-	PreCommitCalls int64          `json:"precommit_calls"`
-	Attempts       int64          `json:"attempts"`
+	Reason         string           `json:"reason"`
+	Requests       map[string]int   `json:"requests"` // by type/outcome
+	Installs       int              `json:"installs"`
+	Wins           int              `json:"wins"`
+	MaxVersion     int              `json:"max_version"`
+	Sections       int              `json:"sections_committed"`
+	WritersCommit  int              `json:"writers_that_committed"`
+	AbortsReleased int              `json:"aborts_that_released"` // Abort processed by an acceptor holding that proposer's pre-commit
+	Rejected       int              `json:"precommits_rejected"`
+	Ignored        int              `json:"stale_ignored"`
+	PreCommitCalls int64            `json:"precommit_calls"`
+	Attempts       int64            `json:"attempts"`
 	Faults         map[string]int64 `json:"faults,omitempty"`
-	LinOps         int            `json:"lin_ops"`
-	LinResult      string         `json:"lin_result"`
-	WinnerSig      string         `json:"winner_sig"` // sequence of winners by version: the interleaving signature
-	Inconclusive   string         `json:"inconclusive,omitempty"`
+	LinOps         int              `json:"lin_ops"`
+	LinResult      string           `json:"lin_result"`
+	WinnerSig      string           `json:"winner_sig"` // sequence of winners by version: the interleaving signature
+	Inconclusive   string           `json:"inconclusive,omitempty"`
+	Livelock       bool             `json:"livelock_fixpoint,omitempty"`
+	LivelockCauses []string         `json:"livelock_causes,omitempty"`
+	Proposals      int64            `json:"proposals_broadcast"`
+	// observations, not verdicts
+	StaleAbortReleases        int `json:"stale_abort_releases"` // an Abort older than the held PreCommit of the same proposer released it
+	LateAccepts               int `json:"precommit_accepted_after_its_abort"`
+	OtherVersionAbortReleases int `json:"other_version_abort_releases"` // an Abort for version w released a pre-commit held for version v != w
 }
 
 func sp(p *string) string {
@@ -181,8 +192,7 @@ func causeOfHeld(evs []Event, r string, prop string, ver int) (cause string, rel
 	acceptAt := -1
 	for i := len(evs) - 1; i >= 0; i-- {
 		e := &evs[i]
-		if e.K == "req" && e.R == r && e.T == "PreCommit" && e.Acpt && e.A != nil && e.A.State == "acceptedPreCommit" && sp(e.A.Prop) == prop && e.A.Ver == ver && e.S == prop && e.V == ver &&
-			(e.B.State != "acceptedPreCommit" || sp(e.B.Prop) != prop || e.B.Ver != ver || !e.Same) {
+		if e.K == "req" && e.R == r && e.T == "PreCommit" && e.Acpt && e.A != nil && e.A.State == "acceptedPreCommit" && sp(e.A.Prop) == prop && e.A.Ver == ver && e.S == prop && e.V == ver && e.A.Time == e.ST {
 			acceptAt = i
 			break
 		}
@@ -194,7 +204,7 @@ func causeOfHeld(evs []Event, r string, prop string, ver int) (cause string, rel
 	rel = append(rel, acc)
 	for i := acceptAt + 1; i < len(evs); i++ {
 		e := evs[i]
-		if e.K == "req" && e.R == r && e.T == "Abort" && e.S == prop && e.V == ver {
+		if e.K == "req" && e.R == r && e.T == "Abort" && e.S == prop && e.V == ver && e.ST > acc.ST {
 			rel = append(rel, e)
 			if e.Same {
 				return "abort-not-released:sender-identical", rel
@@ -212,13 +222,107 @@ func causeOfHeld(evs []Event, r string, prop string, ver int) (cause string, rel
 	for _, e := range evs {
 		if e.K == "inst" && e.How == "commit" && e.R == prop && e.QV == ver {
 			rel = append(rel, e)
-			return "commit-not-delivered", rel
+			c, x := whyNotReached(evs, r, "Commit", prop, ver, 0)
+			return c, append(rel, x...)
 		}
 	}
-	return "proposal-outcome-unknown", rel
+	for _, e := range evs {
+		if (e.K == "req" || e.K == "fault") && e.T == "Abort" && e.S == prop && e.V == ver && e.R != r && e.ST > acc.ST {
+			rel = append(rel, e)
+			c, x := whyNotReached(evs, r, "Abort", prop, ver, acc.ST)
+			return c, append(rel, x...)
+		}
+	}
+	// no Commit and no Abort of this proposal was ever seen anywhere, and its proposer is not running any more
+	return "abort-never-sent-to-any-replica", rel
 }
 
+// whyNotReached: a Commit/Abort of (prop, ver) exists but replica r shows no effect of it.
+func whyNotReached(evs []Event, r, typ, prop string, ver int, newerThan int64) (string, []Event) {
+	lt := strings.ToLower(typ)
+	var lost []Event
+	for _, e := range evs {
+		if e.R != r || e.T != typ || e.S != prop || e.V != ver || e.ST <= newerThan {
+			continue
+		}
+		switch e.K {
+		case "req":
+			return lt + "-processed-but-precommit-kept", []Event{e}
+		case "fault":
+			lost = append(lost, e)
+		}
+	}
+	if len(lost) > 0 {
+		return lt + "-lost-and-retry-abandoned", lost // the transport reported an error for it and the proposer gave up
+	}
+	return lt + "-never-sent-to-replica", nil
+}
+
+// causeOfStale explains why replica r rests below the newest version without holding anything.
+func causeOfStale(evs []Event, r string, nodeVer int) (cause string, rel []Event) {
+	var top *Event
+	for i := range evs {
+		e := &evs[i]
+		if e.K == "inst" && e.How == "commit" && (top == nil || e.QV > top.QV) {
+			top = e
+		}
+	}
+	if top == nil || top.QV <= nodeVer {
+		return "unexplained", nil
+	}
+	rel = append(rel, *top)
+	c, x := whyNotReached(evs, r, "Commit", top.R, top.QV, 0)
+	if strings.HasSuffix(c, "precommit-kept") {
+		c = "unexplained"
+	}
+	return c, append(rel, x...)
+}
+
+// analyse runs every oracle; when a run has two winners for a version, the findings that necessarily follow
+// from that (two values for the version, stale read, non-linearizable history, wrong final value) are folded
+// into the two-winners finding instead of being reported under their own keys.
 func analyse(c Case, evs []Event) (fs []Finding, st Stats) {
+	fs, st = analyse0(c, evs)
+	root := -1
+	for i, f := range fs {
+		if strings.HasPrefix(f.Key, "C11:two-winners-for-one-version") {
+			root = i
+			break
+		}
+	}
+	if root < 0 {
+		return
+	}
+	consequence := func(k string) bool {
+		for _, p := range []string{"C11:agreement:", "C11:stale-read-committed", "C11:not-linearizable-as-one-copy", "C11:final-value-differs", "C11:final-state-disagrees", "C11:committed-value-is-not"} {
+			if strings.HasPrefix(k, p) {
+				return true
+			}
+		}
+		return false
+	}
+	var kept []Finding
+	var folded []string
+	for _, f := range fs {
+		if consequence(f.Key) {
+			folded = append(folded, f.Key+": "+f.Desc)
+		} else {
+			kept = append(kept, f)
+		}
+	}
+	for i := range kept {
+		if strings.HasPrefix(kept[i].Key, "C11:two-winners-for-one-version") && len(folded) > 0 {
+			if m, ok := kept[i].Details.(map[string]any); ok {
+				m["consequences_in_this_run"] = folded
+			}
+			kept[i].Desc += fmt.Sprintf("; consequences in the same run: %d other oracle(s) fired (listed in the witness)", len(folded))
+			break
+		}
+	}
+	return kept, st
+}
+
+func analyse0(c Case, evs []Event) (fs []Finding, st Stats) {
 	st.Requests = map[string]int{}
 	add := func(key, desc string, details any) {
 		for _, f := range fs {
@@ -291,11 +395,15 @@ func analyse(c Case, evs []Event) (fs []Finding, st Stats) {
 		wvers = append(wvers, v)
 		if len(ws) > 1 {
 			key := "C11:two-winners-for-one-version"
+			how, rel := "", []Event(nil)
 			if ws[0].R == ws[1].R {
 				key = "C11:same-proposer-won-one-version-twice"
+			} else {
+				how, rel = howTwoWinners(evs, v, ws[0].R, ws[1].R)
+				key += ":" + how
 			}
-			add(key, fmt.Sprintf("version %d was won by %s (value %s) and by %s (value %s)", v, ws[0].R, sp(ws[0].QVal), ws[1].R, sp(ws[1].QVal)),
-				map[string]any{"version": v, "wins": ws, "requests_for_version": reqsForVersion(evs, v)})
+			add(key, fmt.Sprintf("version %d was won by %s (value %s) and by %s (value %s) [%s]", v, ws[0].R, sp(ws[0].QVal), ws[1].R, sp(ws[1].QVal), how),
+				map[string]any{"version": v, "wins": ws, "decisive_events": rel, "requests_for_version": reqsForVersion(evs, v)})
 		}
 	}
 	sort.Ints(wvers)
@@ -306,7 +414,34 @@ func analyse(c Case, evs []Event) (fs []Finding, st Stats) {
 	st.WinnerSig = strings.ReplaceAll(sig.String(), "\"", "")
 
 	// ---- requests: per-message structural oracle -----------------------------------------------------
-	for _, e := range evs {
+	lastAbort := map[string]int64{} // replica|sender|version -> newest Abort SenderTime processed
+	// newest[r]: SenderTime of the newest PreCommit replica r answered with Accept for the (proposer, version) it
+	// currently holds. The replica's own record keeps the first one when the same proposer re-proposes the same
+	// value for the same version, but the vote then counts for the newer proposal.
+	tracker := holdTracker{}
+	for i := range evs {
+		e := evs[i]
+		owed := false
+		if e.K == "req" && e.A != nil && e.B != nil {
+			ak := fmt.Sprintf("%s|%s|%d", e.R, e.S, e.V)
+			owed = tracker.abortOwesRelease(&e)
+			switch {
+			case e.T == "PreCommit" && e.Acpt && e.A.State == "acceptedPreCommit" && sp(e.A.Prop) == e.S && e.A.Ver == e.V:
+				if e.A.Time == e.ST && !(e.B.State == "acceptedPreCommit" && e.B.Time == e.ST) && lastAbort[ak] > e.ST {
+					st.LateAccepts++
+				}
+			case e.T == "Abort":
+				if e.ST > lastAbort[ak] {
+					lastAbort[ak] = e.ST
+				}
+				if e.B.State == "acceptedPreCommit" && e.A.State == "initial" && e.Eq && e.ST < e.B.Time {
+					st.StaleAbortReleases++
+				}
+				if e.B.State == "acceptedPreCommit" && e.A.State == "initial" && e.Eq && e.V != e.B.Ver {
+					st.OtherVersionAbortReleases++
+				}
+			}
+		}
 		switch e.K {
 		case "ign":
 			st.Ignored++
@@ -319,7 +454,10 @@ func analyse(c Case, evs []Event) (fs []Finding, st Stats) {
 			if e.T == "PreCommit" && !e.Acpt {
 				st.Rejected++
 			}
-			if e.T == "Abort" && e.Acpt && e.B != nil && e.A != nil && e.B.State == "acceptedPreCommit" && e.Eq && e.B.Ver == e.V {
+			// An Abort concerns the proposals its sender made before it: it must release the held pre-commit iff
+			// that pre-commit is older than the Abort (an Abort overtaken by its sender's next PreCommit aborts an
+			// earlier proposal, not the one held).
+			if owed {
 				if e.A.State == "initial" {
 					st.AbortsReleased++
 				} else {
@@ -328,7 +466,7 @@ func analyse(c Case, evs []Event) (fs []Finding, st Stats) {
 						how = "sender-identical"
 					}
 					add("C11:abort-not-released:"+how,
-						fmt.Sprintf("replica %s held an accepted pre-commit of %s for version %d, processed %s's Abort for version %d and still holds it (code's own == on the sender: %v)", e.R, e.S, e.V, e.S, e.V, e.Same),
+						fmt.Sprintf("replica %s held an accepted pre-commit of %s for version %d, processed %s's later Abort for version %d and still holds it (code's own == on the sender: %v)", e.R, e.S, e.V, e.S, e.V, e.Same),
 						map[string]any{"request": e, "transport": c.Transport})
 				}
 			}
@@ -386,7 +524,9 @@ func analyse(c Case, evs []Event) (fs []Finding, st Stats) {
 			}
 		}
 	}
-	var ops []porcupine.Operation
+	// Sections stopped inside Commit (no return) may or may not have taken effect: the history is accepted if it
+	// is linearizable for some subset of them (at most one per writer, so at most 2^6 subsets).
+	var complete, open []*secRec
 	maxTS := int64(0)
 	for _, e := range evs {
 		if e.TS > maxTS {
@@ -394,25 +534,50 @@ func analyse(c Case, evs []Event) (fs []Finding, st Stats) {
 		}
 	}
 	for _, s := range secs {
-		ret := maxTS + 1
 		if s.Done != nil {
-			ret = s.Done.TS
+			complete = append(complete, s)
+		} else {
+			open = append(open, s)
 		}
-		ops = append(ops, porcupine.Operation{ClientId: s.Sec.W, Input: regIn{s.Sec.Rd, s.Sec.Wr}, Call: s.Sec.Call, Output: nil, Return: ret})
 	}
-	st.LinOps = len(ops)
-	if len(ops) > 0 {
+	st.LinOps = len(secs)
+	if len(secs) > 0 && len(open) <= 6 {
 		m := regModel
 		m.Init = func() interface{} { return init }
-		res, _ := porcupine.CheckOperationsVerbose(m, ops, 20*time.Second)
-		st.LinResult = string(res)
-		switch res {
+		result := porcupine.Illegal
+		for mask := 0; mask < 1<<len(open) && result != porcupine.Ok; mask++ {
+			var ops []porcupine.Operation
+			for _, s := range complete {
+				ops = append(ops, porcupine.Operation{ClientId: s.Sec.W, Input: regIn{s.Sec.Rd, s.Sec.Wr}, Call: s.Sec.Call, Return: s.Done.TS})
+			}
+			for i, s := range open {
+				if mask&(1<<i) != 0 {
+					ops = append(ops, porcupine.Operation{ClientId: s.Sec.W, Input: regIn{s.Sec.Rd, s.Sec.Wr}, Call: s.Sec.Call, Return: maxTS + 1})
+				}
+			}
+			if len(ops) == 0 {
+				result = porcupine.Ok
+				break
+			}
+			res, _ := porcupine.CheckOperationsVerbose(m, ops, 20*time.Second)
+			if res == porcupine.Unknown {
+				result = porcupine.Unknown
+				break
+			}
+			if res == porcupine.Ok {
+				result = porcupine.Ok
+			}
+		}
+		st.LinResult = string(result)
+		switch result {
 		case porcupine.Illegal:
 			var hist []map[string]any
 			for _, s := range secs {
 				h := map[string]any{"writer": s.Sec.W, "call": s.Sec.Call, "read": s.Sec.Rd, "write": s.Sec.Wr}
 				if s.Done != nil {
 					h["return"] = s.Done.TS
+				} else {
+					h["return"] = "none (stopped inside Commit; may or may not count)"
 				}
 				if s.Win != nil {
 					h["version"] = s.Win.QV
@@ -420,7 +585,7 @@ func analyse(c Case, evs []Event) (fs []Finding, st Stats) {
 				hist = append(hist, h)
 			}
 			add("C11:not-linearizable-as-one-copy",
-				fmt.Sprintf("the %d committed sections cannot be ordered as operations on a single copy (read-then-write register, initial %s)", len(ops), init),
+				fmt.Sprintf("the %d committed sections cannot be ordered as operations on a single copy (read-then-write register, initial %s)", len(complete), init),
 				map[string]any{"history": hist})
 		case porcupine.Unknown:
 			st.Inconclusive = "porcupine timeout"
@@ -438,34 +603,56 @@ func analyse(c Case, evs []Event) (fs []Finding, st Stats) {
 			stuck = &evs[i]
 		case "setup-failed":
 			st.Inconclusive = "setup failed: " + evs[i].What
+		case "panic":
+			add("C11:crash:"+slug(evs[i].What), "the code under test panicked on the archetype goroutine of "+evs[i].R+": "+evs[i].What,
+				map[string]any{"panic": evs[i], "events_before": trimEvents(evs, []int64{evs[i].TS}, 60)})
+			st.Inconclusive = ""
+			st.Reason = "panic"
+			return
+		}
+	}
+	perMsg := false
+	for _, f := range fs {
+		if strings.HasPrefix(f.Key, "C11:abort-not-released:") {
+			perMsg = true
 		}
 	}
 	if stuck != nil && stuck.Second != nil {
-		causes := map[string]bool{}
-		var detail []any
-		blocked := 0
+		causes := map[string][]any{}
+		blocked, stale, waiting := 0, 0, 0
 		for _, n := range stuck.Second.Nodes {
-			if n.State != "acceptedPreCommit" {
+			if !n.Writer || n.Done {
 				continue
 			}
-			cause, rel := causeOfHeld(evs, n.ID, fmt.Sprint(n.Prop), n.Ver)
-			causes[cause] = true
-			if n.Writer && !n.Done {
+			var cause string
+			var rel []Event
+			if n.State == "acceptedPreCommit" {
 				blocked++
+				cause, rel = causeOfHeld(evs, n.ID, fmt.Sprint(n.Prop), n.Ver)
+			} else {
+				cause, rel = causeOfStale(evs, n.ID, n.Node)
+				if cause == "unexplained" && n.Node >= st.MaxVersion {
+					waiting++ // up to date and free to propose: its section waits for a value only another writer can produce
+					continue
+				}
+				stale++
 			}
-			detail = append(detail, map[string]any{"replica": n.ID, "holds_precommit_of": n.Prop, "version": n.Ver, "cause": cause, "events": rel})
+			causes[cause] = append(causes[cause], map[string]any{"replica": n.ID, "state": n.State, "holds_precommit_of": n.Prop, "held_version": n.Ver, "replica_version": n.Node, "events": rel})
 		}
-		var cs []string
-		for k := range causes {
-			cs = append(cs, k)
+		if len(causes) == 0 {
+			causes["awaited-value-never-produced"] = []any{stuck.Second}
 		}
-		sort.Strings(cs)
-		if len(cs) == 0 {
-			cs = []string{"no-precommit-held"}
+		st.Livelock = true
+		for cause, detail := range causes {
+			st.LivelockCauses = append(st.LivelockCauses, cause)
+			if perMsg && strings.HasPrefix(cause, "abort-not-released") {
+				continue // consequence of what the per-message oracle reported in this run
+			}
+			add("C11:no-progress:"+cause,
+				fmt.Sprintf("fixpoint over %s transport, %d replicas: nothing in flight, no broadcast goroutine outstanding in any resource (%d transport errors had been injected earlier), every unfinished writer completed >= %d further attempts and not one request was sent; %d unfinished writers sit on a replica holding an accepted pre-commit (such a writer aborts locally before proposing), %d on a replica that rests below the newest version, %d are up to date and wait for a value another writer must produce; cause for this key: %s", c.Transport, c.N, stuck.Second.Errors, stuckAttempts, blocked, stale, waiting, cause),
+				map[string]any{"first_snapshot": stuck.First, "second_snapshot": stuck.Second, "writers_without_progress": detail})
 		}
-		add("C11:livelock:"+strings.Join(cs, "+"),
-			fmt.Sprintf("fixpoint over %s transport, %d replicas: nothing in flight, no broadcast outstanding, every unfinished writer completed >= %d further attempts and not one request was sent; %d unfinished writers sit on a replica that holds an accepted pre-commit (a writer whose replica holds one aborts locally before proposing)", c.Transport, c.N, stuckAttempts, blocked),
-			map[string]any{"first_snapshot": stuck.First, "second_snapshot": stuck.Second, "held": detail})
+		sort.Strings(st.LivelockCauses)
 	}
 	if fin == nil {
 		if st.Inconclusive == "" {
@@ -481,19 +668,50 @@ func analyse(c Case, evs []Event) (fs []Finding, st Stats) {
 			st.Attempts += n.Attempts
 		}
 	}
+	if fin.Snap != nil && c.N > 1 {
+		st.Proposals = fin.Snap.PreCMsgs / int64(c.N-1)
+	}
 	if len(fin.RunErrors) > 0 {
 		add("C11:archetype-run-returned-error", "ctx.Run returned an error: "+strings.Join(fin.RunErrors, "; "), fin.RunErrors)
 	}
 	switch fin.Reason {
+	case "stopped-after-violation":
+		if !perMsg {
+			st.Inconclusive = "child stopped after a per-message violation that the offline oracle does not confirm (harness disagreement)"
+		}
 	case "bound":
-		st.Inconclusive = fmt.Sprintf("attempt bound exceeded (%d PreCommit calls > %d)", st.PreCommitCalls, c.MaxPreCommits)
+		st.Inconclusive = fmt.Sprintf("attempt bound exceeded (%d proposals broadcast > %d)", st.Proposals, c.MaxProposals)
 	case "deadline":
 		st.Inconclusive = "internal deadline"
 	}
-	if fin.Reason != "done" || !fin.Quiet || fin.Snap == nil {
+	if fin.Snap == nil || !fin.Quiet || !fin.Halted {
 		if fin.Reason == "done" && st.Inconclusive == "" {
 			st.Inconclusive = "did not drain after completion"
 		}
+		return
+	}
+	// No archetype runs any more, nothing is in flight and no broadcast goroutine is left: whatever a replica
+	// still holds will never be released by anything already sent. Every proposal that did not win is over
+	// (rejected or aborted) and must have been released by the replicas that accepted it; for a proposal that won,
+	// the Commit is owed to every replica unless the transport lost it.
+	if !c.Race {
+		for _, n := range fin.Snap.Nodes {
+			if n.State != "acceptedPreCommit" {
+				continue
+			}
+			cause, rel := causeOfHeld(evs, n.ID, fmt.Sprint(n.Prop), n.Ver)
+			if perMsg && strings.HasPrefix(cause, "abort-not-released") {
+				continue // reported by the per-message oracle
+			}
+			if fin.Snap.Errors != 0 && !strings.HasPrefix(cause, "abort-") && !strings.HasPrefix(cause, "precommit-accepted-after") {
+				continue // with message loss only the release of rejected/aborted proposals is demanded here
+			}
+			add("C11:precommit-never-released:"+cause,
+				fmt.Sprintf("no writer is running any more (%s), nothing is in flight, %d transport errors were injected, yet replica %s still holds an accepted pre-commit of %v for version %d (%s)", fin.Reason, fin.Snap.Errors, n.ID, n.Prop, n.Ver, cause),
+				map[string]any{"replica": n, "events": rel})
+		}
+	}
+	if fin.Reason != "done" {
 		return
 	}
 	// quiescent after every writer finished
@@ -555,22 +773,6 @@ func analyse(c Case, evs []Event) (fs []Finding, st Stats) {
 			fmt.Sprintf("after all writers finished the newest replica state (version %d) holds %s; the committed sections give %s", maxNode, finalVal, expect),
 			map[string]any{"final": fin.Snap, "committed_sections": len(secs)})
 	}
-	// residue: with no injected error every Commit and Abort was delivered once to every replica, so no
-	// replica may still hold an accepted pre-commit once everything has drained
-	if !c.Race && fin.Snap.Errors == 0 {
-		for _, n := range fin.Snap.Nodes {
-			if n.State != "acceptedPreCommit" {
-				continue
-			}
-			cause, rel := causeOfHeld(evs, n.ID, fmt.Sprint(n.Prop), n.Ver)
-			if strings.HasPrefix(cause, "abort-not-released") {
-				continue // reported by the per-message oracle
-			}
-			add("C11:precommit-still-held-at-quiescence:"+cause,
-				fmt.Sprintf("all writers finished, nothing in flight, no transport error was ever injected, yet replica %s still holds an accepted pre-commit of %v for version %d (%s)", n.ID, n.Prop, n.Ver, cause),
-				map[string]any{"replica": n, "events": rel})
-		}
-	}
 	return
 }
 
@@ -582,4 +784,139 @@ func reqsForVersion(evs []Event, v int) []Event {
 		}
 	}
 	return out
+}
+
+// howTwoWinners finds a replica whose vote for version v counted for both winning proposals (a winner votes
+// for itself when it starts proposing) and says what happened to the first vote in between.
+func howTwoWinners(evs []Event, v int, p1, p2 string) (string, []Event) {
+	winST := map[string]int64{}  // winning proposal of a proposer for v = its PreCommits for v with the largest SenderTime
+	firstIdx := map[string]int{} // first processed request of that proposal (the proposer voted for itself before)
+	reps := map[string]bool{p1: true, p2: true}
+	for _, e := range evs {
+		if e.K == "req" {
+			reps[e.R] = true
+			if e.T == "PreCommit" && e.V == v && (e.S == p1 || e.S == p2) && e.ST > winST[e.S] {
+				winST[e.S] = e.ST
+			}
+		}
+	}
+	vote := func(r, p string) int {
+		for i, e := range evs {
+			if e.K == "req" && e.R == r && e.T == "PreCommit" && e.V == v && e.S == p && e.ST == winST[p] && e.Acpt && e.A != nil && e.A.State == "acceptedPreCommit" && sp(e.A.Prop) == p && e.A.Time == e.ST {
+				return i
+			}
+		}
+		return -1
+	}
+	for _, p := range []string{p1, p2} {
+		firstIdx[p] = -1
+		for i, e := range evs {
+			if e.K == "req" && e.T == "PreCommit" && e.V == v && e.S == p && e.ST == winST[p] {
+				firstIdx[p] = i
+				break
+			}
+		}
+	}
+	var rs []string
+	for r := range reps {
+		rs = append(rs, r)
+	}
+	sort.Strings(rs)
+	classify := func(r string, i1 int, pa string, i2 int, second *Event) (string, []Event) {
+		e1 := evs[i1]
+		if second != nil && second.B != nil && second.B.State == "acceptedPreCommit" && sp(second.B.Prop) == pa && second.B.Ver == v {
+			return "replica-voted-twice-without-release", []Event{e1, *second}
+		}
+		for k := i1 + 1; k < i2; k++ {
+			e := evs[k]
+			if e.R != r || e.A == nil {
+				continue
+			}
+			if e.K == "req" && e.B != nil && e.B.State == "acceptedPreCommit" && sp(e.B.Prop) == pa && (e.A.State == "initial" || sp(e.A.Prop) != pa) {
+				rel := []Event{e1, e}
+				if second != nil {
+					rel = append(rel, *second)
+				}
+				if e.T == "Abort" && e.S == pa {
+					if e.V != v {
+						return "vote-released-by-abort-for-another-version", rel
+					}
+					if e.ST < e1.ST {
+						return "vote-released-by-older-abort-of-same-proposer", rel
+					}
+					return "vote-released-by-abort-of-the-winning-proposal", rel
+				}
+				return "vote-released-by-" + strings.ToLower(e.T) + "-from-" + map[bool]string{true: "same", false: "other"}[e.S == pa] + "-proposer", rel
+			}
+		}
+		return "vote-release-not-observed", []Event{e1}
+	}
+	for _, r := range rs {
+		switch r {
+		case p1, p2:
+			self, other := r, p2
+			if r == p2 {
+				other = p1
+			}
+			i := vote(self, other) // the winner, as a replica, voted for the other winner's winning proposal
+			if i < 0 || firstIdx[self] < 0 {
+				continue
+			}
+			if i > firstIdx[self] {
+				return "proposer-voted-for-another-while-proposing-itself", []Event{evs[firstIdx[self]], evs[i]}
+			}
+			return classify(self, i, other, firstIdx[self], nil)
+		default:
+			i1, i2 := vote(r, p1), vote(r, p2)
+			if i1 < 0 || i2 < 0 {
+				continue
+			}
+			pa := p1
+			if i2 < i1 {
+				i1, i2, pa = i2, i1, p2
+			}
+			second := evs[i2]
+			return classify(r, i1, pa, i2, &second)
+		}
+	}
+	return "no-replica-voted-for-both", nil
+}
+
+// holdTracker follows, per replica, the newest PreCommit it answered with Accept for the (proposer, version) it
+// currently holds. The replica's own record keeps the first one when the same proposer re-proposes the same
+// value for the same version, but the vote then counts for the newer proposal.
+type holdTracker map[string]int64
+
+// abortOwesRelease feeds one "req" event (in log order) and reports whether it is an Abort that must leave the
+// replica `initial`: the replica holds a pre-commit of an Equal proposer for the same version and every PreCommit
+// it accepted for that hold is older than the Abort.
+func (h holdTracker) abortOwesRelease(e *Event) bool {
+	if e.A == nil || e.B == nil {
+		return false
+	}
+	owed := e.T == "Abort" && e.Acpt && e.B.State == "acceptedPreCommit" && e.Eq && e.B.Ver == e.V && e.ST > max(e.B.Time, h[e.R])
+	switch {
+	case e.A.State != "acceptedPreCommit":
+		delete(h, e.R)
+	case e.T == "PreCommit" && e.Acpt && sp(e.A.Prop) == e.S && e.A.Ver == e.V:
+		if !(e.B.State == "acceptedPreCommit" && sp(e.B.Prop) == e.S && e.B.Ver == e.V) {
+			h[e.R] = 0 // a new hold begins
+		}
+		h[e.R] = max(h[e.R], e.ST, e.A.Time)
+	case sp(e.A.Prop) != sp(e.B.Prop) || e.A.Ver != e.B.Ver:
+		h[e.R] = e.A.Time
+	}
+	return owed
+}
+
+var slugDigits = regexp.MustCompile(`[0-9]+`)
+var slugOther = regexp.MustCompile(`[^A-Za-z]+`)
+
+// slug normalises a panic message into a key fragment (numbers and punctuation removed).
+func slug(msg string) string {
+	s := slugOther.ReplaceAllString(slugDigits.ReplaceAllString(msg, "N"), "-")
+	if len(s) > 90 {
+		s = s[:90]
+	}
+	return strings.Trim(s, "-")
 }
